@@ -4,7 +4,7 @@ from . import e2e, e2etags, geomgen as G, topo2
 
 ID = "C09"
 LEVEL = "proof"
-LEAN_MODULES = ["DracoProps.C09"]
+LEAN_MODULES = ["DracoProps.C09", "DracoProps.C09Eb"]
 RULE = ("every case encodes with SetTrackEncodedProperties(true) through the Encoder / ExpertEncoder API and compares "
         "num_encoded_points() / num_encoded_faces() with num_points() / num_faces() of the geometry decoded from the "
         "produced stream. (a) random point clouds and meshes of all topology families x all methods, sub-methods, speeds "
